@@ -132,4 +132,5 @@ pub fn run(run: &Run) {
     run.explore(&super::c11::EmbeddedTlv { n: run.tier.pick(7, 9) });
     run.explore(&super::c11::EmbeddedText { n: run.tier.pick(7, 9) });
     run.explore(&super::c11::EmbeddedStructured::new(run.tier == Tier::Thorough));
+    run.explore(&super::c11::NearMaxStructured { span: run.tier.pick(35, 135) });
 }
